@@ -50,7 +50,15 @@ def _dur(n, unit):
 
 
 def _call(name):
+    # "@var:B1" = the behavior *instance* bound to a local variable (`var = B1()` at the
+    # start of the body) and invoked again: same meaning as a fresh `B1()`
+    if name.startswith("@"):
+        return name[1:].split(":")[0]
     return f"{name}()"
+
+
+def _defname(name):
+    return name.split(":")[1] if name.startswith("@") else name
 
 
 def render_block(stmts, ind, out, in_beh):
@@ -127,6 +135,8 @@ def render_block(stmts, ind, out, in_beh):
             out.append(f"{pad}override {s[1]} with {s[2]} {s[3]!r}")
         elif op == "fault":
             out.append(f"{pad}fault({s[1]!r})")
+        elif op == "bind":
+            out.append(f"{pad}{s[1]} = {s[2]}()")
         else:
             raise ValueError(op)
 
@@ -469,8 +479,8 @@ class Ref:
                 return op
             elif op == "override":
                 self.do_override(self.scenario_of(inst), s[1], s[2], s[3])
-            elif op == "fault":
-                pass  # fault points are inert in the reference
+            elif op in ("fault", "bind"):
+                pass  # fault points / instance bindings are inert in the reference
             else:
                 raise ValueError(op)
         return None
@@ -569,11 +579,24 @@ class Ref:
                 self.check_inv(inst)
 
     def do_behavior(self, caller, name):
-        d = beh_def(self.p, name)
+        d = beh_def(self.p, _defname(name))
         sub = Inst(d, "behavior", agent=caller.agent, parent=caller)
-        self.check_pre(sub)
-        self.check_inv(sub)
-        yield from self.run_block(d["body"], sub)
+        key = None
+        if name.startswith("@"):
+            # a behavior instance invoked again while an earlier invocation of the same
+            # instance is merely suspended (interrupted, not abandoned) is a user error
+            key = (caller.agent, id(caller), name)
+            active = self.__dict__.setdefault("active_instances", set())
+            if key in active:
+                raise Unsupported("re-entrant use of a behavior instance")
+            active.add(key)
+        try:
+            self.check_pre(sub)
+            self.check_inv(sub)
+            yield from self.run_block(d["body"], sub)
+        finally:
+            if key is not None:
+                self.active_instances.discard(key)
         return None
 
     def enabled(self, name, inst):
